@@ -425,7 +425,27 @@ func (n *verifNode) Rename(newDir File, newName string) error {
 
 func (n *verifNode) RenameAt(oldName string, newDir File, newName string) error {
 	n.rec(verifCall{op: "RenameAt", s: []string{oldName, newName}, npath: 2, other: n.id2(newDir)})
+	// like every real file system, refuse to move a directory into itself
+	// or into its own subtree (rename(2): EINVAL)
+	if d, ok := newDir.(*verifNode); ok {
+		for a, hops := d, 0; a != nil && hops < 8; a, hops = n.fs.node(a.parent), hops+1 {
+			if a.name == oldName && n.samePath(n.fs.node(a.parent)) {
+				return linux.EINVAL
+			}
+		}
+	}
 	return n.fs.fault()
+}
+
+// samePath: both nodes denote the same path (clones share parent and name).
+func (n *verifNode) samePath(o *verifNode) bool {
+	if o == nil {
+		return false
+	}
+	if n == o {
+		return true
+	}
+	return n.parent == o.parent && n.name == o.name
 }
 
 func (n *verifNode) UnlinkAt(name string, flags uint32) error {
